@@ -12,6 +12,7 @@ import (
 	"strconv"
 	"strings"
 	"sync"
+	"time"
 
 	"verifharness/vhlib"
 )
@@ -147,6 +148,26 @@ func globMatch(p, s string) bool {
 	return s != "" && p[0] == s[0] && globMatch(p[1:], s[1:])
 }
 
+// equality on the wildcard column as the ES front-end asks it: some string field IS the value (whole value, as written)
+type pAnyEq struct{ V string }
+
+func (p pAnyEq) match(e Event) bool {
+	for _, v := range e.Fields {
+		if v.Kind == "s" && v.S == p.V {
+			return true
+		}
+	}
+	return false
+}
+
+// ES term on a named column: the string field is the value as written
+type pStrEqCS struct{ Col, S string }
+
+func (p pStrEqCS) match(e Event) bool {
+	v, ok := e.Fields[p.Col]
+	return ok && v.Kind == "s" && v.S == p.S
+}
+
 type pExists struct{ Col string }
 
 func (p pExists) match(e Event) bool { _, ok := e.Fields[p.Col]; return ok }
@@ -175,6 +196,9 @@ type Query struct {
 	// features used to route known classes
 	FloatMeasure bool
 	Dc           bool
+	// equality on the wildcard column with this string value (ES term / query_string on `*`): the query whose search is
+	// restricted to the candidate columns recorded by the bloom check; compared with TextPlan.v inside Coq
+	AnyEq string
 }
 
 func statVal(fn string, evs []Event) (string, bool) {
@@ -277,7 +301,7 @@ func obsKey(o Obs) string {
 	if o.Err != "" {
 		return "ERR:" + o.Err
 	}
-	if (o.Stats && len(o.Groups) == 0) || (!o.Stats && len(o.Ids) == 0 && !o.Dup) {
+	if (o.Stats && len(o.Groups) == 0) || (!o.Stats && len(o.Ids) == 0 && !o.Dup && (o.Total == nil || *o.Total == 0)) {
 		return "EMPTY" // an aggregation over no matching event comes back without measure rows
 	}
 	if o.Stats {
@@ -286,6 +310,9 @@ func obsKey(o Obs) string {
 	d := ""
 	if o.Dup {
 		d = "DUP"
+	}
+	if o.Total != nil && *o.Total != len(o.Ids) {
+		d += fmt.Sprintf(" but the _search handler reports hits.total=%d", *o.Total)
 	}
 	return fmt.Sprintf("I:%v%s", o.Ids, d)
 }
@@ -491,6 +518,9 @@ type evalCtx struct {
 	bidx  []string
 	e2e   []string
 	fetch []string
+	acol  []string       // one item per (stream, layout): the layout and all its (value, observed ids)
+	acolN []int          // number of (value, observed ids) pairs per item of acol
+	acolL map[string]int // stream/layout -> index into acol
 	mu    sync.Mutex
 	cfg   vhlib.Config
 	nfail map[string]int
@@ -567,6 +597,9 @@ func (c *evalCtx) evaluate(st Stream, res streamResult) {
 			if st.Batching && l.KeepOrder && q.Stats == nil && got.Err == "" {
 				c.fetchCase(st, l, q, out, got)
 			}
+			if q.AnyEq != "" && !l.PQS && got.Err == "" && !got.Dup {
+				c.allcolCase(st, l, q, got)
+			}
 			if obsKey(got) == obsKey(want[qi]) {
 				continue
 			}
@@ -605,10 +638,13 @@ func (c *evalCtx) evaluate(st Stream, res streamResult) {
 				class = c.classifyBatching(st, l, out, got, want[qi], res, qi)
 				dim := layoutDim(l)
 				baseOK := base >= 0 && res.errs[base] == nil && obsKey(res.outs[base].Obs[qi]) == obsKey(want[qi])
+				acClass, _ := allcolClass(st, l, q, got, want[qi])
 				switch {
 				case class != "":
 				case got.Err != "":
 					class = "query_error_in_layout"
+				case acClass != "":
+					class = acClass
 				case dim == "pqs" && extraLackColumn(st.Events, q, got, want[qi]):
 					class = "pqs_matches_event_without_column"
 				case dim != "base" && baseOK && dim == "raw":
@@ -643,6 +679,11 @@ func (c *evalCtx) evaluate(st Stream, res streamResult) {
 			detail := fmt.Sprintf("query `%s` over %d events, layout %s (flush every %d, rotate every %d, final rotate %v, card %d, pqs %v, aggs %v, procs %d): got %s, events say %s", q.Text, len(st.Events), l.Name, l.Every, l.Rotate, l.Final, l.Card, l.PQS, l.Aggs, l.Procs, obsKey(got), obsKey(want[qi]))
 			if other != "" {
 				detail += "; layout " + other + " gives the expected answer"
+			}
+			if q.AnyEq != "" {
+				if _, note := allcolClass(st, l, q, got, want[qi]); note != "" {
+					detail += "; " + note
+				}
 			}
 			if st.Batching {
 				detail += fmt.Sprintf("; blocks in ingest order (event id = rank of its timestamp) %s, GOMAXPROCS=%d = blocks taken per fetch", blocksText(l, len(st.Events)), out.GoMaxProcs)
@@ -942,6 +983,146 @@ func (c *evalCtx) fetchCase(st Stream, l LayoutCfg, q Query, out *WorkerOut, got
 	}
 	c.fetch = append(c.fetch, fmt.Sprintf("(%d%%nat, %s, %s)", out.GoMaxProcs, vhlib.CoqList(segs), vhlib.CoqList(ids)))
 	c.sum.Count("e2e/fetch_order_vs_scheduler_model")
+}
+
+// is the segment (index into allSegments) still open when the queries run
+func segOpen(l LayoutCfg, n int, si int) bool {
+	segs := allSegments(l, n)
+	if l.Rotate <= 0 {
+		return !l.Final
+	}
+	return !(len(segs[si]) == l.Rotate || l.Final)
+}
+
+// an equality on the wildcard column lost events: is every lost event in a block (of this layout) that holds the
+// value - as a whole value or as a word of a value, i.e. among the bloom tokens - in two or more columns?
+func allcolClass(st Stream, l LayoutCfg, q Query, got, want Obs) (string, string) {
+	if q.AnyEq == "" || got.Err != "" || got.Stats {
+		return "", ""
+	}
+	// events are lost: ids missing (none invented), or all ids there but the _search handler counts fewer
+	idsLost := missingOnly(got, want)
+	countLost := !idsLost && !got.Dup && fmt.Sprint(got.Ids) == fmt.Sprint(want.Ids) && got.Total != nil && *got.Total < len(want.Ids)
+	if !idsLost && !countLost {
+		return "", ""
+	}
+	have := map[int]bool{}
+	for _, x := range got.Ids {
+		have[x] = true
+	}
+	note := ""
+	all := true
+	for si, sg := range allSegments(l, len(st.Events)) {
+		for _, b := range sg {
+			lost := false
+			cols := map[string]bool{}
+			for _, ei := range b {
+				e := st.Events[ei]
+				if q.P.match(e) && (countLost || !have[e.Id]) {
+					lost = true
+				}
+				for k, v := range e.Fields {
+					if v.Kind == "s" && (v.S == q.AnyEq || containsWords(v.S, q.AnyEq)) {
+						cols[k] = true
+					}
+				}
+			}
+			if !lost {
+				continue
+			}
+			if len(cols) < 2 {
+				all = false
+				continue
+			}
+			if note == "" {
+				var cs []string
+				for k := range cols {
+					cs = append(cs, k)
+				}
+				sort.Strings(cs)
+				state := "rotated"
+				if segOpen(l, len(st.Events), si) {
+					state = "open"
+				}
+				what := "events of it are lost"
+				if countLost {
+					what = "the _search handler counts fewer events than match"
+				}
+				note = fmt.Sprintf("block %v of a segment that is %s holds %q in columns %v (in different records or as a word of a longer value), and %s", b, state, q.AnyEq, cs, what)
+			}
+		}
+	}
+	if all {
+		return "allcolumn_equality_loses_match_in_other_column", note
+	}
+	if note == "" {
+		note = "a block that loses events holds the value in ONE column only (a candidate list holding only a column whose filter answers yes without holding the value gives this)"
+	}
+	return "allcolumn_equality_loses_match", note
+}
+
+// Coq case of TextPlan.v: the layout's segments (open / rotated) and blocks with the string cells of every record and
+// the numeric columns, and per value the ids the real system returned for  * = value
+func (c *evalCtx) allcolCase(st Stream, l LayoutCfg, q Query, got Obs) {
+	ids := make([]string, len(got.Ids))
+	for i, x := range got.Ids {
+		if x < 0 {
+			x = 1 << 40
+		}
+		ids[i] = fmt.Sprintf("%d%%nat", x)
+	}
+	idl := "(@nil nat)"
+	if len(ids) > 0 {
+		idl = vhlib.CoqList(ids)
+	}
+	pair := fmt.Sprintf("(%s, %s)", cbytes(q.AnyEq), idl)
+	c.sum.Count("e2e/allcol_equality_vs_candidate_column_model")
+	key := st.Name + "/" + l.Name
+	if c.acolL == nil {
+		c.acolL = map[string]int{}
+	}
+	if i, ok := c.acolL[key]; ok {
+		c.acol[i] = strings.TrimSuffix(c.acol[i], "])") + "; " + pair + "])"
+		c.acolN[i]++
+		return
+	}
+	var segs []string
+	for si, sg := range allSegments(l, len(st.Events)) {
+		var bl []string
+		for _, b := range sg {
+			var rs []string
+			nums := map[string]bool{"id": true}
+			for _, ei := range b {
+				e := st.Events[ei]
+				var cells []string
+				for _, k := range e.Order {
+					if v := e.Fields[k]; v.Kind == "s" {
+						cells = append(cells, fmt.Sprintf("(%s, %s)", cbytes(k), cbytes(v.S)))
+					} else {
+						nums[k] = true
+					}
+				}
+				cl := "(@nil (list N * list N))"
+				if len(cells) > 0 {
+					cl = vhlib.CoqList(cells)
+				}
+				rs = append(rs, fmt.Sprintf("(%d%%nat, %s)", e.Id, cl))
+			}
+			var ns []string
+			for k := range nums {
+				ns = append(ns, k)
+			}
+			sort.Strings(ns)
+			for i := range ns {
+				ns[i] = cbytes(ns[i])
+			}
+			bl = append(bl, fmt.Sprintf("(mkTB %s %s)", vhlib.CoqList(rs), vhlib.CoqList(ns)))
+		}
+		segs = append(segs, fmt.Sprintf("(%s, %s)", cb(segOpen(l, len(st.Events), si)), vhlib.CoqList(bl)))
+	}
+	c.acolL[key] = len(c.acol)
+	c.acol = append(c.acol, fmt.Sprintf("(%s, false, [%s])", vhlib.CoqList(segs), pair))
+	c.acolN = append(c.acolN, 1)
 }
 
 // ---------- generators ----------
@@ -1499,6 +1680,113 @@ func blockTimeStream(rng *vhlib.Rng, idx int, thorough bool) Stream {
 		Batching: true, WideOf: wideOf, RefName: fmt.Sprintf("ord_rot_p%d", wide)}
 }
 
+// ES request body (the real front-end of an equality on the wildcard column with a string value); the time range is
+// part of the body because the ES front-end otherwise searches its default range
+const esRange = `{"range":{"timestamp":{"gte":1699999999000,"lte":1700100000000}}}`
+
+func esBool(must []string, should []string) string {
+	b := `"must":[` + strings.Join(append(append([]string{}, must...), esRange), ",") + `]`
+	if len(should) > 0 {
+		b += `,"should":[` + strings.Join(should, ",") + `]`
+	}
+	return `es:{"size":10000,"query":{"bool":{` + b + `}}}`
+}
+func esTerm(col, v string) string { return fmt.Sprintf(`{"term":{%q:%q}}`, col, v) }
+
+// all-column equality family: ONE value sits in DIFFERENT columns of one block (in different records, in one record,
+// as a word of a longer value of a third column), in one column only, in one block only, nowhere; asked as an equality
+// on the wildcard column with a string value (ES term / query_string on `*`: the search is restricted to the columns
+// the block-bloom check recorded), as a named-column term, as AND / OR of such terms and as SPL words; the same events
+// open / rotated, one block / k per flush / several segments, dictionary / raw columns, PQS, GOMAXPROCS 1
+func allColStream(rng *vhlib.Rng, idx int, thorough bool) Stream {
+	k := rng.Range(2, 3)
+	nb := rng.Range(3, 4)
+	if thorough {
+		nb = rng.Range(3, 8)
+	}
+	n := k * nb
+	needles := []string{"alpha", "beta", "gamma"}
+	msgs := []string{"say alpha now", "beta gamma", "plain text", "alpha", "Alpha beta", "x y z", "gamma"}
+	evs := make([]Event, n)
+	pick := func(i int, side string) Val {
+		switch {
+		case rng.Chance(40):
+			return sv(vhlib.Pick(rng, needles))
+		case rng.Chance(10):
+			return sv("Alpha")
+		case rng.Chance(10):
+			return sv("alpha beta")
+		}
+		return sv(fmt.Sprintf("%s-%d", side, i))
+	}
+	for i := range evs {
+		e := Event{Id: i}
+		e.set("src", pick(i, "left"))
+		e.set("dst", pick(i, "right"))
+		e.set("msg", sv(vhlib.Pick(rng, msgs)))
+		e.set("n", iv(int64(rng.Range(0, 9))))
+		if i%k == 0 || rng.Chance(50) { // every block of every layout of this stream starts with an event that has the column
+			e.set("opt", sv(vhlib.Pick(rng, []string{"alpha", "none", "other", "gamma"})))
+		}
+		evs[i] = e
+	}
+	// the core of the family, in the first block of every layout: the value in another column in each record, and as a
+	// word of a longer value of a third column
+	evs[0].set("src", sv("alpha"))
+	evs[0].set("dst", sv("right-0"))
+	evs[0].set("msg", sv("plain text"))
+	evs[1].set("src", sv("left-1"))
+	evs[1].set("dst", sv("alpha"))
+	evs[1].set("msg", sv("say alpha now"))
+	// a value that exists in the last block only, again in two columns of two records
+	for i := range evs {
+		for _, c := range []string{"src", "dst", "opt"} {
+			if v, ok := evs[i].Fields[c]; ok && v.S == "omega" {
+				evs[i].set(c, sv("none"))
+			}
+		}
+	}
+	evs[n-2].set("dst", sv("omega"))
+	evs[n-1].set("src", sv("omega"))
+	anyQ := func(v string) Query {
+		return Query{Text: esBool([]string{esTerm("*", v)}, nil), P: pAnyEq{v}, Kind: "text", AnyEq: v}
+	}
+	var qs []Query
+	for _, v := range []string{"alpha", "beta", "gamma", "omega", "Alpha", "alpha beta", "say alpha now", "plain text", "zeta", "left-1", "none"} {
+		qs = append(qs, anyQ(v))
+	}
+	for _, v := range []string{"alpha", "omega", "gamma"} {
+		qs = append(qs, Query{Text: esBool([]string{fmt.Sprintf(`{"query_string":{"query":"*:%s"}}`, v)}, nil), P: pAnyEq{v}, Kind: "text", AnyEq: v})
+	}
+	qs = append(qs,
+		Query{Text: esBool([]string{esTerm("src", "alpha")}, nil), P: pStrEqCS{"src", "alpha"}, Kind: "text"},
+		Query{Text: esBool([]string{esTerm("dst", "alpha")}, nil), P: pStrEqCS{"dst", "alpha"}, Kind: "text"},
+		Query{Text: esBool([]string{esTerm("*", "alpha"), esTerm("*", "beta")}, nil), P: pAnd{pAnyEq{"alpha"}, pAnyEq{"beta"}}, Kind: "bool"},
+		Query{Text: esBool([]string{esTerm("*", "alpha"), `{"term":{"n":5}}`}, nil), P: pAnd{pAnyEq{"alpha"}, pCmp{"n", 0, 5}}, Kind: "bool"},
+		Query{Text: esBool([]string{esTerm("*", "gamma"), esTerm("src", "alpha")}, nil), P: pAnd{pAnyEq{"gamma"}, pStrEqCS{"src", "alpha"}}, Kind: "bool"},
+		Query{Text: "alpha", P: pWord{"alpha"}, Kind: "text"},
+		Query{Text: "omega", P: pWord{"omega"}, Kind: "text"},
+		Query{Text: "*=gamma", P: pWord{"gamma"}, Kind: "text"},
+		Query{Text: "alpha beta", P: pAnd{pWord{"alpha"}, pWord{"beta"}}, Kind: "text"},
+		Query{Text: "src=alpha OR dst=alpha", P: pOr{pStrEq{"src", "alpha", false}, pStrEq{"dst", "alpha", false}}, Kind: "bool"},
+		Query{Text: "src=omega OR dst=omega", P: pOr{pStrEq{"src", "omega", false}, pStrEq{"dst", "omega", false}}, Kind: "bool"},
+		Query{Text: "alpha | stats count by src", P: pWord{"alpha"}, Kind: "stats", Stats: []string{"count"}, By: "src"},
+	)
+	layouts := []LayoutCfg{
+		{Name: "one_rot", Every: 0, Final: true, Aggs: true},
+		{Name: "one_open", Every: 0, Final: false, Aggs: true},
+		{Name: "one_raw", Every: 0, Final: true, Aggs: true, Card: 1},
+		{Name: fmt.Sprintf("e%d_rot", k), Every: k, Final: true, Aggs: true},
+		{Name: fmt.Sprintf("e%d_open", k), Every: k, Final: false, Aggs: true},
+		{Name: fmt.Sprintf("e%d_raw", k), Every: k, Final: true, Aggs: true, Card: 1},
+		{Name: fmt.Sprintf("e%d_open_raw", k), Every: k, Final: false, Aggs: true, Card: 1},
+		{Name: fmt.Sprintf("e%d_segs", k), Every: k, Rotate: 2, Final: false, Aggs: true},
+		{Name: fmt.Sprintf("e%d_pqs", k), Every: k, Final: true, Aggs: true, PQS: true},
+		{Name: fmt.Sprintf("e%d_p1", k), Every: k, Final: true, Aggs: true, Procs: 1},
+	}
+	return Stream{Name: fmt.Sprintf("ac%d", idx), Events: evs, Layouts: layouts, Queries: qs}
+}
+
 func runMeta(cfg vhlib.Config, sum *vhlib.Summary, rng *vhlib.Rng) {
 	ctx := &evalCtx{sum: sum, cfg: cfg}
 	nmain := 8
@@ -1539,11 +1827,22 @@ func runMeta(cfg vhlib.Config, sum *vhlib.Summary, rng *vhlib.Rng) {
 	for i := 0; i < nbt; i++ {
 		streams = append(streams, blockTimeStream(brng.Fork(), i, cfg.Thorough()))
 	}
+	nac := 2
+	if cfg.Thorough() {
+		nac = 16
+	}
+	arng := rng.Fork() // forked after every earlier stream: their inputs stay what they were
+	for i := 0; i < nac; i++ {
+		streams = append(streams, allColStream(arng.Fork(), i, cfg.Thorough()))
+	}
 	streams = append(streams, known...)
 	// streams run one after the other, the layouts of a stream in parallel worker processes
+	famT := map[string]float64{}
 	for _, st := range streams {
+		t0 := time.Now()
 		res := runStream(cfg.Out, st, 10)
 		ctx.evaluate(st, res)
+		famT[strings.TrimRight(st.Name, "0123456789")] += time.Since(t0).Seconds()
 		if len(sum.Samples) < 3 {
 			var qs []string
 			for _, q := range st.Queries {
@@ -1556,10 +1855,34 @@ func runMeta(cfg vhlib.Config, sum *vhlib.Summary, rng *vhlib.Rng) {
 			sum.Sample(map[string]interface{}{"stream": st.Name, "first_event": st.Events[0].doc(), "events": len(st.Events), "layouts": ls, "queries": qs})
 		}
 	}
+	{
+		var fs []string
+		for f := range famT {
+			fs = append(fs, f)
+		}
+		sort.Strings(fs)
+		t := "metamorphic runs per stream family (s):"
+		for _, f := range fs {
+			t += fmt.Sprintf(" %s=%.1f", f, famT[f])
+		}
+		sum.Notes = append(sum.Notes, t)
+	}
 	shard(sum, cfg.Out, "cases_e2e", "check_e2e", ctx.e2e, 350)
 	shard(sum, cfg.Out, "cases_window", "check_window", ctx.win, 60)
 	shard(sum, cfg.Out, "cases_block_index", "check_block_index", ctx.bidx, 300)
 	shard(sum, cfg.Out, "cases_pqs_flag", "check_pqs_flag", ctx.pflag, 400)
+	for i, k := 0, 0; i < len(ctx.acol); i, k = i+40, k+1 {
+		j := i + 40
+		if j > len(ctx.acol) {
+			j = len(ctx.acol)
+		}
+		npairs := 0
+		for _, x := range ctx.acolN[i:j] {
+			npairs += x
+		}
+		sum.WriteCaseFile(cfg.Out, fmt.Sprintf("cases_allcol_e2e_%02d", k), casesImports,
+			"Definition cases := "+vhlib.CoqListNL(ctx.acol[i:j])+".\n", "check_allcol_e2e cases", npairs)
+	}
 	for i, k := 0, 0; i < len(ctx.fetch); i, k = i+250, k+1 {
 		j := i + 250
 		if j > len(ctx.fetch) {
